@@ -16,6 +16,7 @@ streams
 from __future__ import annotations
 
 import copy
+import zlib
 import json
 import re
 from pathlib import Path
@@ -265,7 +266,16 @@ class AGen:
             cnt = 0 if r < 0.4 else self.rng.randint(1, 2)
         else:
             cnt = 0 if r < 0.12 else self.rng.randint(1, self.star_max)
-        return [self.nt(n, depth) for _ in range(cnt)]
+        out = []
+        for _ in range(cnt):
+            nd = self.nt(n, depth)
+            out.append(nd)
+            # repeated pair statements (two `header "Cookie" …;` lines): same form, sometimes the same first argument
+            if nd[0] == "stmt" and len(nd[2]) == 2 and not isinstance(nd[2][0], tuple) and self.rng.random() < 0.35:
+                for _k in range(self.rng.choice([1, 1, 2])):
+                    first = nd[2][0] if self.rng.random() < 0.6 else self.val()
+                    out.append(("stmt", nd[1], [first, self.val()]))
+        return out
 
     def cover(self, f, depth=1):
         """a profile (list of top-level nodes) that uses form f"""
@@ -610,7 +620,43 @@ def calls_of(rng, nodes, cls_name, explicit=0.3):
     """call words (without the closing E) that build `nodes` on an object of class `cls_name`"""
     attrs = CLS_ATTRS[cls_name]
     out = []
-    for nd in nodes:
+    # consecutive two-argument statements of one form are also built by ONE call carrying the whole pair list
+    # (header=[(a, b), (a, c)]): repeated names must stay separate statements, in order
+    nodes = list(nodes)
+    k = 0
+    while k < len(nodes):
+        nd = nodes[k]
+        run = [nd]
+        if nd[0] == "stmt" and len(nd[2]) == 2 and not isinstance(nd[2][0], tuple):
+            while k + len(run) < len(nodes) and nodes[k + len(run)][0] == "stmt" and nodes[k + len(run)][1] is nd[1] \
+                    and len(nodes[k + len(run)][2]) == 2:
+                run.append(nodes[k + len(run)])
+        if len(run) >= 2 and rng.random() < 0.6:
+            name = label_name(nd[1])
+            kind = attrs.get(name)
+            meant = cls_name in ("HttpOptionsBlock", "HttpConfigBlock", "StageTransformBlock")
+            if ((kind in ("pair", "header", "parameter") and (kind == "pair" or name == kind)) or meant) and rng.random() >= explicit:
+                out.append(f"kp:{nm(name)}:{len(run)}")
+            elif name == "header" and rng.random() < 0.3:
+                out.append(f"hd:{len(run)}")
+            elif name == "parameter" and rng.random() < 0.3:
+                out.append(f"pm:{len(run)}")
+            else:
+                out.append(f"pr:{nm(name)}:{len(run)}")
+            for r_ in run:
+                out += [r_[2][0].word(), r_[2][1].word()]
+            k += len(run)
+            continue
+        k += 1
+        nodes_one = [nd]
+        for nd in nodes_one:
+            out += _calls_of_one(rng, nd, cls_name, attrs, explicit)
+    return out
+
+
+def _calls_of_one(rng, nd, cls_name, attrs, explicit):
+    out = []
+    for nd in [nd]:
         if nd[0] == "seq":
             raise RuntimeError("seq node outside a data-transform block")
         if nd[0] == "stmt":
@@ -1250,6 +1296,16 @@ def impl(stream, line):
             prof = C2Profile.from_text(unhx(w[1]))
         except lark.exceptions.LarkError:
             return "exc LarkError"
+        if zlib.crc32(line.encode()) % 3 == 0:
+            # a second profile parsed from the SAME text is modified first: profiles are independent objects, so the
+            # dictionary of `prof` must not see it (shared parse results / trees between instances)
+            twin = C2Profile.from_text(unhx(w[1]))
+            twin.set_option("sleeptime", "424242")
+            twin.tree.children.append(Tree("option", [Token("OPTION", "jitter"), Tree("string", [Token("STRING", '"7"')])]))
+            try:
+                twin.as_dict()
+            except Exception:  # noqa: BLE001
+                pass
         return outcome(prof)
     if stream == "tree":
         prof = C2Profile()
